@@ -9,6 +9,12 @@ TRUST = "Trusted: go/packages+go/ssa (x/tools v0.29.0) IR construction, the govc
 
 TECH='deductive verification with ghost state and interface contracts: weakest-precondition VCs from go/ssa; contracts in node/contracts_verif.go; discharged by z3/cvc5'
 claimed = {
+ 'C15': dict(
+   text="Proof (partial: string escaping and per-format rendering; bracket/comma structure across the editor's callback sequence and the decode direction of the JSON grammar are not decided): nodeutil.writeString — for every string and both escapeHTML settings, every write is pinned to the byte or rune at the current position: opening and closing quote, a backslash only in front of a byte that is not copy-safe, \\\\ and \\\" for themselves, \\n \\r \\t for the three named controls, \\u00XX with the two correct hex digits for every other unsafe ASCII byte, \\ufffd exactly for an undecodable byte, \\u2028/\\u2029 for the two separators; no ASCII byte that needs escaping is ever copied verbatim (loop invariant over the pending run, against the imported safeSet/htmlSafeSet tables), every pending run is flushed exactly before an escape and at the end, indices stay in bounds and the loop terminates. JSONWtr.writeValue's per-item closure — strings, binary, bits and identityrefs never reach the raw writer (only the quoting writeString), an empty-typed leaf is written as the literal [null]. One genuine defect found and repaired (fix: af9bad0, empty leaf written as <not empty>).",
+   ref="7 (C15)", technique="deductive verification: weakest-precondition VCs from go/ssa, per-call-site argument clauses, constant tables imported from their initialisers; contracts in nodeutil/contracts_verif.go; discharged by z3/cvc5"),
+ 'C02': dict(
+   text="Proof (partial: the combination step of the typedef chain only; name resolution, the compile order and default/units inheritance in compiler.compileType are not under contract): Type.mixin — for every base and derived type (with distinct backing arrays, as the builder creates them) the derived type keeps each of its own range, length and bit restrictions and gains every one of the base's, in order, so every level of the chain stays enforced; patterns, enums, the leafref path and fraction-digits are inherited exactly when the derived type states none; the built-in format is the base's; nothing but the derived type (and the spare capacity of its own restriction slices) is written.",
+   ref="7 (C02)", technique="deductive verification: weakest-precondition VCs from go/ssa with loop invariants and a frame condition; contract in meta/contracts_verif.go; discharged by z3/cvc5"),
  'C03': dict(
    text="Proof (partial: the editor's own decisions; the merge result itself lives in node implementations behind the Node interface): editor.node — insert of a child that is not created is an error, update never creates, a created child means a New request was issued; editor.leaf — defaults are requested exactly when (strategy != update and the enclosing node is new) or the editor was asked to set defaults, nothing is written when the source has no value; editor.enter/list/node/leaf/selekt/selectListItem keep the edit protocol (C12 clauses) for every strategy. Not decided: that the target tree equals the keyed deep merge; conflict/not-found error identity for lists.",
    ref="7 (C03)", technique=TECH),
